@@ -76,7 +76,7 @@ class _MetaPyTree(type):
         arg_memo_bak = arg_memo.copy()
         try:
             out = cls._check(obj, pytree_memo)
-        except Exception:
+        except BaseException:
             set_shape_memo(
                 single_memo_bak, variadic_memo_bak, pytree_memo_bak, arg_memo_bak
             )
